@@ -37,7 +37,13 @@ class CallMixin:
         if isinstance(node.func, ast.Name):
             fn = node.func.id
             if fn == "cast" and len(node.args) == 2:
-                return self.ev(node.args[1], st)
+                th_c = parse_hint(node.args[0])
+                outs_c = self.ev(node.args[1], st)
+                if th_c is not None and hint_kind(th_c) == "obj":
+                    for o_c in outs_c:
+                        if o_c.kind == "val" and o_c.val is not None and o_c.val.z is not None and o_c.val.tup is None:
+                            o_c.val = Val(o_c.val.z, th=th_c)   # typing.cast: same value, narrower static class
+                return outs_c
             if fn in self.SPEC_FUNCS and st.pure:
                 return [Out("val", st, self.spec_call(fn, node, st))]
         if any(isinstance(a, ast.Starred) for a in node.args) or any(k.arg is None for k in node.keywords):
@@ -186,7 +192,7 @@ class CallMixin:
         if st.depth >= self.inline_depth:
             raise NeedsContract(f"inline depth exceeded at {fi.key}", node)
         for d in fi.decorators:
-            if d not in ("staticmethod", "classmethod", "property", "override", "abstractmethod"):
+            if d not in ("staticmethod", "classmethod", "property", "override", "abstractmethod", "ClassProperty"):
                 raise NeedsContract(f"decorated function {fi.key} (@{d})", node)
         if "abstractmethod" in fi.decorators:
             raise NeedsContract(f"abstract method {fi.key} (receiver class not known statically)", node)
@@ -539,9 +545,12 @@ class CallMixin:
 
         def tracked(text: str) -> bool:
             """clauses about ghost variables that the current proof does not declare are not tracked"""
-            if not c.ghost:
+            seqs = {lp_.seq_name for lp_ in c.loops.values() if lp_.seq_name}
+            if not c.ghost and not c.lets and not seqs:
                 return True
             names = {n.id for n in ast.walk(ast.parse(text.strip(), mode="eval")) if isinstance(n, ast.Name)}
+            if any(l in names for l in c.lets) or (names & seqs):
+                return False  # clauses phrased with the callee's local abbreviations are not exported
             return all(g in st.ghost for g in c.ghost if g in names)
 
         # preconditions are obligations of the caller
